@@ -150,6 +150,7 @@ VERDICT = {
     3: ("reload-without-change", "the batch ended with nothing changed and nothing pending, yet NGINX was reloaded"),
     4: ("reload-without-change", "the batch ended with nothing changed and nothing pending, yet everything was regenerated and NGINX reloaded"),
     5: ("reload-failure-not-reported", "a failed Reload was not reported on any resource (no Warning event)"),
+    7: ("change-not-applied", "outside any batch the sync changed a file but neither called Reload afterwards nor pushed the change through the Plus API"),
     6: ("reload-failure-not-reported", "a Reload that failed while endpoints were updated was only logged (no Warning event on the resources using the service)"),
 }
 
@@ -253,7 +254,7 @@ TRUSTED = [
 
 
 def check(run):
-    n = 1500 if run.tier == "quick" else 15000
+    n = 800 if run.tier == "quick" else 12000
     run.proof_obligations()
     binary = C.go_build("c12")
     out = os.path.join(C.WORK, "cases", "c12_%s.jsonl" % run.tier)
